@@ -40,8 +40,12 @@ func oracleC07(v *View, vd *Verdict) {
 	auth := v.R.Plan.Cfg.Auth
 	for _, sv := range v.Sess {
 		var seq []string       // client packets consumed so far (labels)
-		brokerAccepted := false // broker accepted a CONNECT sent after the latest client CONNECT
-		connectSentSinceClientConnect := false
+		// The broker accepted an MQTT CONNECT sent in this session. The statement says "in the current
+		// session", not "for the latest client CONNECT": a broker CONNACK still on its way when the
+		// client repeats its CONNECT is relayed inside the new exchange (what C09 calls a carried
+		// CONNACK), and the session it reports was accepted by the broker.
+		brokerAccepted := false
+		connectSent := false
 		everActive := false
 		illegalAt := -1
 		illegalWhat := ""
@@ -59,9 +63,7 @@ func oracleC07(v *View, vd *Verdict) {
 				}
 				npre++
 				switch p.Type {
-				case refsn.CONNECT:
-					brokerAccepted, connectSentSinceClientConnect = false, false
-				case refsn.AUTH, refsn.WILLTOPIC, refsn.WILLMSG:
+				case refsn.CONNECT, refsn.AUTH, refsn.WILLTOPIC, refsn.WILLMSG:
 				case refsn.PUBLISH:
 					if !auth && p.QoS == 3 && (p.TIT == refsn.TITShort || p.TIT == refsn.TITPredefined) {
 						break
@@ -80,7 +82,7 @@ func oracleC07(v *View, vd *Verdict) {
 				}
 				m := e.MQ
 				if m.Type == refmqtt.CONNECT {
-					connectSentSinceClientConnect = true
+					connectSent = true
 				}
 				if illegalAt >= 0 && e.Idx > illegalAt {
 					vd.Add("C07", fmt.Sprintf("C07/forwarded-after-illegal-packet/%s", illegalWhat),
@@ -90,7 +92,7 @@ func oracleC07(v *View, vd *Verdict) {
 						"session %s: %s written to the broker before any accepted connect (client packets: %s)", sv.Name, m.String(), seqSig(seq))
 				}
 			case EvB2G:
-				if e.MQ.Type == refmqtt.CONNACK && e.MQ.RC == 0 && connectSentSinceClientConnect {
+				if e.MQ.Type == refmqtt.CONNACK && e.MQ.RC == 0 && connectSent {
 					brokerAccepted = true
 				}
 			case EvG2C:
@@ -113,7 +115,7 @@ func oracleC07(v *View, vd *Verdict) {
 							path = "sleep-shortcut"
 						}
 						vd.Add("C07", "C07/active-without-broker-connect/"+path,
-							"session %s t=%d: CONNACK(accepted) sent although the broker accepted no CONNECT for the current exchange (client packets: %s)", sv.Name, e.T, seqSig(seq))
+							"session %s t=%d: CONNACK(accepted) sent although the broker accepted no CONNECT in this session (client packets: %s)", sv.Name, e.T, seqSig(seq))
 					}
 					everActive = true
 				}
